@@ -135,6 +135,18 @@ pub fn run(ctx: &Ctx) -> i32 {
             let r = digest_of(Interrupting::new(&bytes, at.clone(), chunk), &opts);
             cmp(&mut res, &format!("interrupt-burst:{}x/chunk{}", at.len(), chunk), r);
         }
+        // runs of consecutive interrupts (a stalled descriptor): 20 in a row before EVERY call, longer runs at sampled calls
+        for c in 0..calls {
+            let r = digest_of(Interrupting::new(&bytes, (c..c + 20).collect(), if c % 2 == 0 { 0 } else { 3 }), &opts);
+            cmp(&mut res, &format!("interrupt-run:20@{}", c), r);
+        }
+        for len in [2u64, 17, 300, 70_000] {
+            for c in [0, rng.below(calls), rng.below(calls), calls.saturating_sub(1)] {
+                let r = digest_of(Interrupting::new(&bytes, (c..c + len).collect(), 0), &opts);
+                cmp(&mut res, &format!("interrupt-run:{}@{}", len, c), r);
+            }
+        }
+        res.count("interrupt_run_placements", calls + 16);
         // ---- hard errors at EVERY byte offset below the consumed length ----------------------
         let mut faults = 0u64;
         for at in 0..consumed {
@@ -171,6 +183,36 @@ pub fn run(ctx: &Ctx) -> i32 {
                 };
                 let _ = std::fs::remove_file(&path);
                 cmp(&mut res, "read_file:tempfile", r);
+            }
+            // a named pipe through read_file: a path whose stat size (0) says nothing about the bytes it delivers
+            let fifo = std::env::temp_dir().join(format!("asemon-c14-fifo-{}-{}", std::process::id(), i));
+            if let Ok(cpath) = std::ffi::CString::new(fifo.to_string_lossy().as_bytes()) {
+                if unsafe { libc::mkfifo(cpath.as_ptr(), 0o600) } == 0 {
+                    let data = bytes.clone();
+                    let wpath = fifo.clone();
+                    let h = std::thread::spawn(move || {
+                        if let Ok(mut f) = std::fs::OpenOptions::new().write(true).open(&wpath) {
+                            for part in data.chunks(997) {
+                                if f.write_all(part).is_err() {
+                                    break;
+                                }
+                            }
+                        }
+                    });
+                    let r = match AsepriteFile::read_file(&fifo) {
+                        Ok(a) => Ok(observe(&a, &opts).digest()),
+                        Err(e) => Err(err_sig(&e)),
+                    };
+                    // release the writer should the library never have opened the pipe
+                    let fd = unsafe { libc::open(cpath.as_ptr(), libc::O_RDONLY | libc::O_NONBLOCK) };
+                    let _ = h.join();
+                    if fd >= 0 {
+                        unsafe { libc::close(fd) };
+                    }
+                    let _ = std::fs::remove_file(&fifo);
+                    cmp(&mut res, "read_file:named-pipe", r);
+                    res.count("named_pipe_loads", 1);
+                }
             }
             // a missing file is an I/O error, not a panic
             let missing = std::env::temp_dir().join(format!("asemon-c14-missing-{}-{}", std::process::id(), i));
